@@ -2,6 +2,7 @@ import PqModel.DeltaProofs
 import PqModel.DeltaGoProofs
 import PqModel.DeltaKernel
 import PqModel.DeltaUnpack
+import PqModel.DeltaAmd64
 
 /-! # C04 (part DELTA) — DELTA_BINARY_PACKED, DELTA_LENGTH_BYTE_ARRAY and DELTA_BYTE_ARRAY are
 lossless and conform to the format, for every input.
@@ -246,5 +247,32 @@ theorem unpack_call_fits (vpm w cnt : Nat) (data : List Nat) (h8 : vpm % 8 = 0) 
   mini_fits vpm w cnt data h8 hc hl
 
 example : (32 : Nat) % 8 = 0 ∧ 7 ≤ 32 ∧ (List.replicate 12 0).length = 32 * 3 / 8 := by decide
+
+/-! ## The amd64 Go wrapper of the DELTA_BYTE_ARRAY decoder (what the default build runs) -/
+
+/-- `decodeByteArray` of byte_array_amd64.go (split scan from the end of the suffix lengths, AVX2
+kernel on the first `k` values — replaced by its contract —, reconstruction of the read position
+`j = len(src) - n` and of the previous value `dst[i-(prefix[k-1]+suffix[k-1]):]`, scalar loop on
+the rest; transliterated in PqModel/DeltaAmd64.lean) returns the values of the portable loop
+(`goJoin`, the one `goDecodeDBA_eq_spec` and `conformant_dba_go` are about) whenever that loop
+accepts the lengths and the suffix bytes end where `src` ends, as they do in a data page. -/
+theorem dba_amd64_wrapper_eq_portable (src : List Nat) (ps ss : List (BitVec 32)) (vs : List (List Nat))
+    (hl : ps.length = ss.length) (h : goJoin [] ps ss src = .ok vs)
+    (hend : (ss.map BitVec.toNat).sum = src.length) :
+    amd64Vals src (ps.map BitVec.toNat) (ss.map BitVec.toNat) = vs :=
+  amd64Vals_of_goJoin src ps ss vs hl h hend
+
+example : goJoin [] [0#32, 1#32] [2#32, 1#32] [0xab, 0xcd, 0xef] = .ok [[0xab, 0xcd], [0xab, 0xef]] ∧
+    (([2#32, 1#32] : List (BitVec 32)).map BitVec.toNat).sum = [0xab, 0xcd, 0xef].length := by decide
+
+/-- The hypothesis on the end of `src` is needed — with bytes after the suffixes the amd64 wrapper
+reads the values left to its scalar loop from the wrong place (observation
+`maldba-trailing-bytes-change-values`): 70 one-byte values `00 01 02 …` followed by one stray byte;
+the portable loop returns the 70 bytes, the wrapper shifts the last 64 by one. -/
+theorem dba_amd64_wrapper_needs_exact_end :
+    ∃ (src ps ss : List Nat), validLens 0 ps ss ∧ ps.length = ss.length ∧ ss.sum < src.length ∧
+      amd64Vals src ps ss ≠ loopVals src [] 0 ps ss :=
+  ⟨List.range 71, List.replicate 70 0, List.replicate 70 1, by decide +kernel, by decide +kernel,
+    by decide +kernel, by decide +kernel⟩
 
 end PqModel.Props.C04Delta
